@@ -199,7 +199,8 @@ pub fn run(job: &Value, t: &mut Trace) -> usize {
         }
         t.emit(json!({"ev": "crashrun", "run": ri as i64, "fe": fe, "channels": channels as i64, "bps": bps as i64,
             "meta_len": meta_len as i64, "total_bytes": bytes.len() as i64,
-            "declared": if declared { decl_frames as i64 } else { -1 },
+            // (clipped to what a TLC integer holds: the monitor only asks whether everything declared was delivered)
+            "declared": if declared { (decl_frames as u64).min(i32::MAX as u64) as i64 } else { -1 },
             "frames": fr.iter().map(|(n, e)| json!([*n as i64, *e as i64])).collect::<Vec<_>>(),
             "written_pcm_frames": frames as i64, "opts": j["opts"]}));
         // cut points: after every underlying write call, or every byte
